@@ -53,6 +53,19 @@ func ruleR01(c *Ctx) {
 				}
 				atom := "len(" + fl.raw.canon(base) + ")"
 				fl.at.addSide(atom, linAtom(atom).scale(-1))
+				// the index is the result of a library function that its own body bounds by the length
+				// of an argument (x[:longestCommonPrefix(x, y, 0)]): that bound holds of the call itself
+				if call, isCall := ast.Unparen(idx).(*ast.CallExpr); isCall && fl.retBnd != nil && len(li.t) == 1 {
+					for _, rb := range fl.retBnd(call) {
+						if rb.Arg < len(call.Args) {
+							la := "len(" + fl.raw.canon(call.Args[rb.Arg]) + ")"
+							fl.at.addSide(la, linAtom(la).scale(-1))
+							for ca := range li.t {
+								fl.at.addSide(ca, linAtom(ca).add(linAtom(la), -1)) // call - len(arg) ≤ 0
+							}
+						}
+					}
+				}
 				goal := li.add(linAtom(atom), -1)
 				need := display(fl.raw.canon(idx)) + " <= len(" + display(fl.raw.canon(base)) + ")"
 				if strict {
